@@ -1432,4 +1432,28 @@ def rule_bases_by_attribute_position(ctx, cfg='prod-all', scope=('cl03::sigma_pr
                      'inside the walk over the hidden positions a base is selected by the attribute position (the list element), not by the running position',
                      '%s L%s' % (b.file(), t.get('line')), fact={'container': nm, 'index_depends_on_list_elements': by_elem, 'index': fmt_atoms(b, at)[:5]},
                      expected='index computed from an element of the hidden-position list')
+        # a base handed to a sub-prover / sub-verifier inside the walk is the base of the attribute at hand, not a fixed element of the base list
+        # (`check_range_proof(.., (g, h, N), ..)` with the hoisted g = g_bases[0] where the proof of knowledge next to it uses g_bases[i])
+        for bi, t in b.calls():
+            tgt = local_target(eng, t)
+            if tgt is None or not tgt.startswith('cl03::') or not any(bi in bl for bl in walk_loops):
+                continue
+            for k, a in enumerate(t['args']):
+                if a.get('k') not in ('copy', 'move'):
+                    continue
+                ty = b.local_ty(a['pl']['l']).replace('&mut ', '').lstrip('&').strip()
+                if not (ty.endswith('rug::Integer') or ty.startswith('(')):
+                    continue          # single bases (or a tuple of them); whole keys / base lists are judged inside the callee
+                at = fd.read_op(a)
+                from_bases = [x for x in at if x[0] == 'p' and ('g_bases' in x[2] or (owner.local_name(x[1]) or '').startswith('a_bases'))]
+                if not from_bases:
+                    continue
+                n += 1
+                by_elem = any(strip(x)[0] == 'p' and strip(x)[1] == kidx and x[0] not in ('len', 'narrow') for x in at)
+                key = '%s#base-argument:%s[%d]' % (p, tgt.split('::')[-1], k)
+                cnt[key] = cnt.get(key, 0) + 1
+                yield Ob('RF-B', key + ('~%d' % cnt[key] if cnt[key] > 1 else ''), by_elem,
+                         'inside the walk over the hidden positions a base handed to a sub-proof is selected by the attribute position',
+                         '%s L%s' % (b.file(), t.get('line')), fact={'callee': tgt.split('::')[-1], 'argument': k, 'depends_on_list_elements': by_elem,
+                                                                      'from': fmt_atoms(b, from_bases)[:3]}, expected='selected by the list element')
     yield Ob('RF-B', 'cl03#base-selections', n >= 6, 'base selections inside walks over the hidden positions', '', fact=n, expected='>= 6', nontrivial=False)
